@@ -156,5 +156,16 @@ func cmdC05(o opts) {
 			em.put(g2, data, at, kind, []int{1 + r.Intn(5)}, at%4 < 2, none, false, "struct_err")
 		}
 	}
+	// 3. rejected input for a very long time (a peer that speaks something else for 66 000 bytes: as many calls, each one a
+	//    non-fatal parse error), then valid frames: every call still returns a frame, a parse error or the transport's error
+	{
+		data := nonMarker(r, 66000+r.Intn(500))
+		for k := 0; k < 2; k++ {
+			j := mkFrame(r, 2, k == 1, 9)
+			data = append(data, frameBytes(j)...)
+			data = append(data, nonMarker(r, 3)...)
+		}
+		em.put(em.group(), data, -1, "eof", []int{1 + r.Intn(4000)}, false, streamCfg{bufSize: 512}, true, "long_noise_then_frames")
+	}
 	rec.Close()
 }
